@@ -140,10 +140,8 @@ func execC33(t *testing.T, c C33Case) *Verdict {
 //
 // cancelled: this Run's own context was cancelled before it returned. Such a
 // Run may fail with the cancellation error; if it returns results all the same
-// they are judged like any others. Whatever a cancelled Run did, every other
-// Run must still get either the right value or -- only for a query whose
-// current memo entry the model knows to be a propagated error (see
-// gworld.poisoned) -- that error; never a wrong value without an error.
+// their values are judged like any others. Whatever a cancelled Run did, every
+// other Run must still get the right values.
 func checkC33Run(w *gworld, rr runResult, cancelled bool) {
 	switch {
 	case rr.panicked != nil:
@@ -166,9 +164,9 @@ func checkC33Run(w *gworld, rr runResult, cancelled bool) {
 	for i, r := range rr.roots {
 		res := rr.results[i]
 		if res.Fatal != nil {
-			if w.memo[r] && w.poisoned[r] && errors.Is(res.Fatal, context.Canceled) {
-				sim.S().Probe("run:saw-poisoned-memo")
-				continue
+			if errors.Is(res.Fatal, context.Canceled) && !cancelled {
+				w.fail(viol("C33/cancellation-error-served-to-live-run", "Run(%v) (run %d), whose context is live: query %d failed with %v -- an error that a cancelled Run left in the memo", rr.roots, rr.tag, r, res.Fatal))
+				return
 			}
 			w.fail(viol("C33/unexpected-fatal", "Run(%v): query %d failed: %v", rr.roots, r, res.Fatal))
 			return
@@ -178,14 +176,12 @@ func checkC33Run(w *gworld, rr runResult, cancelled bool) {
 			return
 		}
 	}
-	closure := w.downClosure(rr.roots)
-	for k := range closure {
-		if w.memo[k] && w.poisoned[k] {
-			// a poisoned entry did not resolve all of its dependencies
-			closure = nil
-		}
+	if cancelled {
+		// (this Run got results although its context was cancelled on the way: what
+		// it computed after the cancellation was deliberately not memoised)
+		return
 	}
-	for k := range closure {
+	for k := range w.downClosure(rr.roots) {
 		if !w.memo[k] {
 			w.fail(viol("C33/evicted-key-not-recomputed", "after Run(%v) (run %d) query %d is needed but was not executed since it was last evicted (a stale memo was used)", rr.roots, rr.tag, k))
 			return
